@@ -122,6 +122,29 @@ theorem loadFeatures_some (d : Dir) (nt : Nat) (s : Sparse) (h : loadFeatures d 
           obtain ⟨r1, r2⟩ := optTable_row d _ _ _ _ rows hrw
           exact ⟨a, rfl, by simpa using h3, rfl, c1, c2, r1, r2⟩
 
+/-- the shown features by ENTRIES, for a stored `(n, p, q)` array without size-1 dimensions -/
+theorem loadFeatures_entries (d : Dir) (nt : Nat) (s : Sparse) (h : loadFeatures d nt = .ok (some s))
+    (a : Arr) (ha : d.lookup "pc_features.npy" = some a) (n p q : Nat) (hs : a.shape = [n, p, q])
+    (hn : n ≠ 1) (hp : p ≠ 1) (hq : q ≠ 1) (hl : a.data.length = n * (p * q)) :
+    s.data.shape = [n, q, p] ∧
+    ∀ i j k, i < n → j < p → k < q →
+      s.data.data[i * (q * p) + (k * p + j)]? = a.data[i * (p * q) + (j * q + k)]? := by
+  obtain ⟨a', ha', -, hd, -⟩ := loadFeatures_some d nt s h
+  rw [ha] at ha'
+  injection ha' with ha'
+  subst ha'
+  have hsq : squeeze a = a := by
+    cases a with
+    | mk sh da =>
+      simp only at hs
+      subst hs
+      simp [squeeze, hn, hp, hq]
+  have hf : feat3 a = a := by
+    simp [feat3, hsq, hs]
+  rw [hd, hf]
+  obtain ⟨h1, -, h3⟩ := transpose021_spec a n p q hs hl
+  exact ⟨h1, h3⟩
+
 theorem loadFeatures_none (d : Dir) (nt : Nat) (h : loadFeatures d nt = .ok none) :
     "pc_features.npy" ∉ names d := by
   unfold loadFeatures at h
